@@ -11,13 +11,13 @@ def snap_tract(t):
     return (t.trs, t.desc, t.pp_desc, tuple(t.lots), tuple(t.qqs), tuple(sorted(t.lot_acres.items())),
             tuple(t.aliquots_whole), tuple(t.w_flags), tuple(t.e_flags), tuple(t.w_flag_lines), tuple(t.e_flag_lines),
             t.parse_complete, t.orig_index, t.orig_desc, t.source,
-            tuple((s, getattr(t, s, None)) for s in SETTINGS[:7]))
+            tuple((s, getattr(t, s, None)) for s in SETTINGS[:7]), t.config.decompile_to_text())
 
 
 def snap_desc(d):
     return (d.orig_desc, d.pp_desc, d.current_layout, d.layout, tuple(d.w_flags), tuple(d.e_flags),
             tuple(d.w_flag_lines), tuple(d.e_flag_lines), tuple(snap_tract(t) for t in d.tracts),
-            tuple((s, getattr(d, s, None)) for s in SETTINGS), d.desc_is_flawed, type(d.tracts).__name__)
+            tuple((s, getattr(d, s, None)) for s in SETTINGS), d.desc_is_flawed, type(d.tracts).__name__, d.config.decompile_to_text())
 
 
 # an op is (kind, commit, pq, cq):  kind 0 parse | 1 parse_tracts | 2 preprocess | 3 config assignment | 4 sort | 5 filter
